@@ -426,14 +426,20 @@ theorem SameItems.setRc {h : Heap} {id : Nat} {b : Block} (hb : Var.getB h id = 
     simp [hlt, hget, eraseRc]
   · simp [List.getElem?_set_ne (Ne.symm hi)]
 
-/-- `Var(const Var&)` of a value that is held somewhere: succeeds, and the copy is one more root -/
-theorem WF.copyV {h : Heap} {R : List V} {v : V} (wf : WF h R) (hv : v ∈ R ∨ v ∈ hvals h) :
+/-- the block a value points to (if any) is live and of the value's kind -/
+def LiveV (h : Heap) (v : V) : Prop := ∀ id, handleOf v = some id → ∃ b, getB h id = .ok b ∧ b.isObj = isObjV v
+
+theorem WF.liveV {h : Heap} {R : List V} (wf : WF h R) {v : V} (hv : v ∈ R ∨ v ∈ hvals h) : LiveV h v :=
+  fun id hid => wf.live v hv id hid
+
+/-- `Var(const Var&)` of a value whose block is live: succeeds, and the copy is one more root -/
+theorem WF.copyV {h : Heap} {R : List V} {v : V} (wf : WF h R) (hv : LiveV h v) :
     ∃ h', copyV h v = .ok h' ∧ WF h' (v :: R) ∧ SameItems h h' := by
   unfold Var.copyV
   cases hh : handleOf v with
   | none => exact ⟨h, rfl, (WF.cons_scalar hh).mpr wf, SameItems.refl h⟩
   | some id =>
-    obtain ⟨b, hb, hk⟩ := wf.live v hv id hh
+    obtain ⟨b, hb, hk⟩ := hv id hh
     simp only [hb]
     refine ⟨_, rfl, ?_, SameItems.setRc hb _⟩
     have hlt := getB_lt hb
@@ -441,13 +447,13 @@ theorem WF.copyV {h : Heap} {R : List V} {v : V} (wf : WF h R) (hv : v ∈ R ∨
     refine ⟨?_, ?_, ?_⟩
     · intro x hx id' hid'
       rw [hvals_eq] at hx
-      have hx' : x ∈ R ∨ x ∈ hvals h := by
+      have hx' : LiveV h x := by
         rcases hx with hx | hx
         · rcases List.mem_cons.mp hx with rfl | hx
           · exact hv
-          · exact Or.inl hx
-        · exact Or.inr hx
-      obtain ⟨b', hb', hk'⟩ := wf.live x hx' id' hid'
+          · exact wf.liveV (Or.inl hx)
+        · exact wf.liveV (Or.inr hx)
+      obtain ⟨b', hb', hk'⟩ := hx' id' hid'
       by_cases he : id' = id
       · subst he
         rw [hb] at hb'; cases hb'
@@ -757,6 +763,12 @@ def SameDom (σ σ' : State) : Prop :=
   ∀ id b, getB σ.heap id = .ok b → ∃ b', getB σ'.heap id = .ok b' ∧ b'.items.length = b.items.length ∧
     b'.isObj = b.isObj ∧ b'.cap = b.cap
 
+theorem SameDom.liveV {σ σ' : State} (d : SameDom σ σ') {v : V} (hv : LiveV σ.heap v) : LiveV σ'.heap v := by
+  intro id hid
+  obtain ⟨b, hb, hk⟩ := hv id hid
+  obtain ⟨b', hb', _, e2, _⟩ := d.2.2 id b hb
+  exact ⟨b', hb', by rw [e2]; exact hk⟩
+
 theorem SameDom.validLoc {σ σ' : State} (d : SameDom σ σ') {l : Loc} (hl : ValidLoc σ l) : ValidLoc σ' l := by
   cases l with
   | slot k => simp only [ValidLoc] at hl ⊢; rw [d.1]; exact hl
@@ -892,6 +904,19 @@ theorem NoSelf.of_sub {h h' : Heap} (sub : SubItems h h') (ns : NoSelf h) : NoSe
 /-- a value that may be the argument of a copy: a scalar, or a handle some Var of the state holds -/
 def Held (σ : State) (T : List V) (v : V) : Prop := handleOf v = none ∨ v ∈ σ.slots ++ T ∨ v ∈ hvals σ.heap
 
+theorem Held.live {σ : State} {T : List V} {v : V} (inv : Inv σ T) (hv : Held σ T v) : LiveV σ.heap v := by
+  rcases hv with hv | hv
+  · intro id hid; rw [hv] at hid; cases hid
+  · exact inv.wf.liveV hv
+
+theorem Inv.copyLive {σ : State} {T : List V} {v : V} (inv : Inv σ T) (hv : LiveV σ.heap v) :
+    ∃ h', Var.copyV σ.heap v = .ok h' ∧ Inv { σ with heap := h' } (v :: T) ∧ SameItems σ.heap h' := by
+  obtain ⟨h', hc, wf', same⟩ := inv.wf.copyV hv
+  refine ⟨h', hc, ⟨?_, SortedHeap.of_sub (SubItems.of_same same) inv.sorted, NoSelf.of_sub (SubItems.of_same same) inv.noself⟩, same⟩
+  apply wf'.congr
+  · intro x hx; simp only [List.mem_append, List.mem_cons] at hx ⊢; rcases hx with h1 | h1 | h1 <;> simp [h1]
+  · intro id; simp only [occ_append, occ_cons]; omega
+
 theorem Inv.copyV {σ : State} {T : List V} {v : V} (inv : Inv σ T) (hv : Held σ T v) :
     ∃ h', Var.copyV σ.heap v = .ok h' ∧ Inv { σ with heap := h' } (v :: T) ∧ SameItems σ.heap h' := by
   rcases hv with hv | hv
@@ -899,7 +924,7 @@ theorem Inv.copyV {σ : State} {T : List V} {v : V} (inv : Inv σ T) (hv : Held 
     apply ((WF.cons_scalar (h := σ.heap) (R := σ.slots ++ T) hv).mpr inv.wf).congr
     · intro x hx; simp only [List.mem_append, List.mem_cons] at hx ⊢; rcases hx with h1 | h1 | h1 <;> simp [h1]
     · intro id; simp only [occ_append, occ_cons]; omega
-  · obtain ⟨h', hc, wf', same⟩ := inv.wf.copyV hv
+  · obtain ⟨h', hc, wf', same⟩ := inv.wf.copyV (inv.wf.liveV hv)
     refine ⟨h', hc, ⟨?_, SortedHeap.of_sub (SubItems.of_same same) inv.sorted, NoSelf.of_sub (SubItems.of_same same) inv.noself⟩, same⟩
     apply wf'.congr
     · intro x hx; simp only [List.mem_append, List.mem_cons] at hx ⊢; rcases hx with h1 | h1 | h1 <;> simp [h1]
@@ -1361,9 +1386,16 @@ theorem Inv.relocate {σ : State} {T : List V} {l : Loc} {id newcap : Nat} {b : 
     ∃ σ', Var.relocate guard σ l id newcap = .ok (σ', σ.heap.length) ∧ Inv σ' T ∧
       σ'.slots.length = σ.slots.length ∧ ValidLoc σ' l ∧
       readLoc σ' l = .ok (mkHandle b.isObj σ.heap.length) ∧
-      getB σ'.heap σ.heap.length = .ok { b with cap := newcap } := by
+      getB σ'.heap σ.heap.length = .ok { b with cap := newcap } ∧
+      (∀ v, LiveV σ.heap v → handleOf v ≠ some id → LiveV σ'.heap v) := by
   have hlt := getB_lt hb
   have hpar := ValidLoc.parent_ne inv hr (handleOf_mkHandle _ _)
+  have moved : ∀ (h0 : Heap) (v : V), h0.length = σ.heap.length → LiveV h0 v → handleOf v ≠ some id →
+      LiveV ((h0.set id none) ++ [some { b with cap := newcap }]) v := by
+    intro h0 v hlen hv hne j hj
+    obtain ⟨bj, hbj, hk⟩ := hv j hj
+    have hji : j ≠ id := by intro e; subst e; exact hne hj
+    exact ⟨bj, by rw [getB_append_left _ (by simpa using getB_lt hbj), getB_set_ne _ hji]; exact hbj, hk⟩
   rw [relocate_unfold guard hb hrc]
   cases l with
   | slot k =>
@@ -1383,9 +1415,11 @@ theorem Inv.relocate {σ : State} {T : List V} {l : Loc} {id newcap : Nat} {b : 
     simp only [Var.writeLoc, List.length_set, hl, if_true, List.set_set, Except.ok.injEq] at hwc
     subst hwc
     simp only [Var.writeLoc, hl, if_true]
-    refine ⟨_, rfl, (Inv.scalar rfl).mp invc, by simp, by simp [ValidLoc, hl], by simp [readLoc, hl], ?_⟩
-    have := getB_alloc_new (σ.heap.set id none) { b with cap := newcap }
-    simpa using this
+    refine ⟨_, rfl, (Inv.scalar rfl).mp invc, by simp, by simp [ValidLoc, hl], by simp [readLoc, hl], ?_, ?_⟩
+    · have := getB_alloc_new (σ.heap.set id none) { b with cap := newcap }
+      simpa using this
+    · intro v hv hne
+      exact moved σ.heap v rfl hv hne
   | item P i =>
     have hPi : P ≠ id := by intro e; exact hpar (by simp [parentOf, e])
     obtain ⟨bP, hbP, hi⟩ := hl
@@ -1444,7 +1478,7 @@ theorem Inv.relocate {σ : State} {T : List V} {l : Loc} {id newcap : Nat} {b : 
         · rw [List.getElem?_append_right (by simp; omega), List.getElem?_append_right (by simp; omega)]
           simp
     rw [← hσc]
-    refine ⟨σc, rfl, (Inv.scalar rfl).mp invc, ?_, ?_, ?_, ?_⟩
+    refine ⟨σc, rfl, (Inv.scalar rfl).mp invc, ?_, ?_, ?_, ?_, ?_⟩
     · rw [domc.1]
     · exact domc.validLoc ⟨_, g2, hi2⟩
     · rw [hlen1] at hrc3; exact hrc3
@@ -1454,16 +1488,20 @@ theorem Inv.relocate {σ : State} {T : List V} {l : Loc} {id newcap : Nat} {b : 
       rw [getB_set_ne _ hNP]
       have := getB_alloc_new (σ.heap.set id none) { b with cap := newcap }
       simpa using this
+    · intro v hv hne
+      exact domc.liveV (moved _ v hlen1 (doma.liveV hv) hne)
 
 
 /-! ## growth: reserve, insert, resize -/
 
 /-- outcome of an operation that may have moved block `b` (found at `id` through the Var at `l`) -/
-structure Grown (σ σ' : State) (l : Loc) (b : Block) (id' : Nat) : Prop where
+structure Grown (σ σ' : State) (l : Loc) (b : Block) (id id' : Nat) : Prop where
   slots : σ'.slots.length = σ.slots.length
   valid : ValidLoc σ' l
   read : readLoc σ' l = .ok (mkHandle b.isObj id')
   blk : ∃ b', getB σ'.heap id' = .ok b' ∧ b'.items = b.items ∧ b'.isObj = b.isObj
+  keeps : ∀ v, LiveV σ.heap v → handleOf v ≠ some id → LiveV σ'.heap v
+  fresh : id' = id ∨ id' = σ.heap.length
 
 theorem relocate_refused {σ : State} {l : Loc} {id newcap : Nat} {b : Block}
     (hb : getB σ.heap id = .ok b) (hrc : b.rc > 1) : Var.relocate true σ l id newcap = .error .sharedGrowth := by
@@ -1473,23 +1511,23 @@ theorem relocate_refused {σ : State} {l : Loc} {id newcap : Nat} {b : Block}
 theorem Inv.growTo {σ : State} {T : List V} {l : Loc} {id newcap : Nat} {b : Block}
     (inv : Inv σ T) (hl : ValidLoc σ l) (hr : readLoc σ l = .ok (mkHandle b.isObj id)) (hb : getB σ.heap id = .ok b) :
     Var.relocate true σ l id newcap = .error .sharedGrowth ∨
-    ∃ σ' id', Var.relocate true σ l id newcap = .ok (σ', id') ∧ Inv σ' T ∧ Grown σ σ' l b id' ∧
+    ∃ σ' id', Var.relocate true σ l id newcap = .ok (σ', id') ∧ Inv σ' T ∧ Grown σ σ' l b id id' ∧
       ∃ b', getB σ'.heap id' = .ok b' ∧ b'.items = b.items ∧ b'.cap = newcap := by
   by_cases hrc : b.rc > 1
   · exact Or.inl (relocate_refused hb hrc)
   · have hpos := inv.wf.pos id b hb
     have hrc1 : b.rc = 1 := by omega
-    obtain ⟨σ', hrel, inv', hs, hv, hrd, hg⟩ := inv.relocate (newcap := newcap) true hl hr hb hrc1
-    exact Or.inr ⟨σ', _, hrel, inv', ⟨hs, hv, hrd, _, hg, rfl, rfl⟩, _, hg, rfl, rfl⟩
+    obtain ⟨σ', hrel, inv', hs, hv, hrd, hg, hkeep⟩ := inv.relocate (newcap := newcap) true hl hr hb hrc1
+    exact Or.inr ⟨σ', _, hrel, inv', ⟨hs, hv, hrd, ⟨_, hg, rfl, rfl⟩, hkeep, Or.inr rfl⟩, _, hg, rfl, rfl⟩
 
 theorem Grown.refl {σ : State} {l : Loc} {b : Block} {id : Nat} (hl : ValidLoc σ l)
-    (hr : readLoc σ l = .ok (mkHandle b.isObj id)) (hb : getB σ.heap id = .ok b) : Grown σ σ l b id :=
-  ⟨rfl, hl, hr, b, hb, rfl, rfl⟩
+    (hr : readLoc σ l = .ok (mkHandle b.isObj id)) (hb : getB σ.heap id = .ok b) : Grown σ σ l b id id :=
+  ⟨rfl, hl, hr, ⟨b, hb, rfl, rfl⟩, fun _ hv _ => hv, Or.inl rfl⟩
 
 theorem Inv.reserveAt {σ : State} {T : List V} {l : Loc} {id m : Nat} {b : Block}
     (inv : Inv σ T) (hl : ValidLoc σ l) (hr : readLoc σ l = .ok (mkHandle b.isObj id)) (hb : getB σ.heap id = .ok b) :
-    Var.reserveAt true σ l id m = .error .sharedGrowth ∨
-    ∃ σ' id', Var.reserveAt true σ l id m = .ok (σ', id') ∧ Inv σ' T ∧ Grown σ σ' l b id' ∧
+    (b.cap < m ∧ Var.reserveAt true σ l id m = .error .sharedGrowth) ∨
+    ∃ σ' id', Var.reserveAt true σ l id m = .ok (σ', id') ∧ Inv σ' T ∧ Grown σ σ' l b id id' ∧
       ∃ b', getB σ'.heap id' = .ok b' ∧ b'.items = b.items ∧ m ≤ b'.cap := by
   unfold Var.reserveAt
   simp only [hb]
@@ -1498,13 +1536,13 @@ theorem Inv.reserveAt {σ : State} {T : List V} {l : Loc} {id m : Nat} {b : Bloc
     exact Or.inr ⟨σ, id, rfl, inv, Grown.refl hl hr hb, b, hb, rfl, hm⟩
   · simp only [hm, if_false]
     rcases inv.growTo (newcap := max (2 * b.cap) m) hl hr hb with h1 | ⟨σ', id', h1, inv', g, b', hb', e1, e2⟩
-    · exact Or.inl h1
+    · exact Or.inl ⟨by omega, h1⟩
     · exact Or.inr ⟨σ', id', h1, inv', g, b', hb', e1, by rw [e2]; omega⟩
 
 theorem Inv.growInsertAt {σ : State} {T : List V} {l : Loc} {id : Nat} {b : Block}
     (inv : Inv σ T) (hl : ValidLoc σ l) (hr : readLoc σ l = .ok (mkHandle b.isObj id)) (hb : getB σ.heap id = .ok b) :
     Var.growInsertAt true σ l id = .error .sharedGrowth ∨
-    ∃ σ' id', Var.growInsertAt true σ l id = .ok (σ', id') ∧ Inv σ' T ∧ Grown σ σ' l b id' := by
+    ∃ σ' id', Var.growInsertAt true σ l id = .ok (σ', id') ∧ Inv σ' T ∧ Grown σ σ' l b id id' := by
   unfold Var.growInsertAt
   simp only [hb]
   by_cases hm : b.items.length < b.cap
@@ -1538,6 +1576,16 @@ theorem validLoc_setB_ne {σ : State} {l : Loc} {id : Nat} (b' : Block) (h : par
     obtain ⟨bP, hbP, hi⟩ := hl
     exact ⟨bP, by simp only [setB, getB_set_ne _ hP]; exact hbP, hi⟩
 
+theorem liveV_setB {h : Heap} {id : Nat} {b b' : Block} (hb : getB h id = .ok b) (hk : b'.isObj = b.isObj) {v : V}
+    (hv : LiveV h v) : LiveV (setB h id b') v := by
+  intro j hj
+  obtain ⟨bj, hbj, hkj⟩ := hv j hj
+  by_cases he : j = id
+  · subst he
+    rw [hb] at hbj; cases hbj
+    exact ⟨b', getB_setB_same _ (getB_lt hb), by rw [hk]; exact hkj⟩
+  · exact ⟨bj, by rw [setB, getB_set_ne _ he]; exact hbj, hkj⟩
+
 theorem noself_of_block {σ : State} {T : List V} (inv : Inv σ T) {id : Nat} {b : Block} (hb : getB σ.heap id = .ok b) :
     ∀ v ∈ b.items.map (·.2), handleOf v ≠ some id := fun v hv => inv.noself id b hb v hv
 
@@ -1545,14 +1593,14 @@ theorem noself_of_block {σ : State} {T : List V} (inv : Inv σ T) {id : Nat} {b
 theorem Inv.resizeGrow {σ : State} {T : List V} {l : Loc} {id m : Nat} {b : Block}
     (inv : Inv σ T) (hl : ValidLoc σ l) (hr : readLoc σ l = .ok (mkHandle b.isObj id)) (hb : getB σ.heap id = .ok b)
     (harr : b.isObj = false) (hm : b.items.length ≤ m) :
-    Var.resizeAt true σ l id m = .error .sharedGrowth ∨
+    (b.cap < m ∧ Var.resizeAt true σ l id m = .error .sharedGrowth) ∨
     ∃ σ' id', Var.resizeAt true σ l id m = .ok (σ', id') ∧ Inv σ' T ∧ σ'.slots.length = σ.slots.length ∧
       ValidLoc σ' l ∧ readLoc σ' l = .ok (mkHandle b.isObj id') ∧
       ∃ b', getB σ'.heap id' = .ok b' ∧ b'.items = b.items ++ List.replicate (m - b.items.length) ([], V.none) ∧
         b'.isObj = false := by
   unfold Var.resizeAt
-  rcases inv.reserveAt (m := m) hl hr hb with h1 | ⟨σ1, id1, h1, inv1, g, b1, hb1, e1, _⟩
-  · left; simp [h1, bind, Except.bind]
+  rcases inv.reserveAt (m := m) hl hr hb with ⟨hc, h1⟩ | ⟨σ1, id1, h1, inv1, g, b1, hb1, e1, _⟩
+  · left; exact ⟨hc, by simp [h1, bind, Except.bind]⟩
   · right
     obtain ⟨b1', hb1', e1', e2'⟩ := g.blk
     rw [hb1] at hb1'; cases hb1'
@@ -1594,7 +1642,7 @@ theorem Inv.resizeGrow {σ : State} {T : List V} {l : Loc} {id m : Nat} {b : Blo
 theorem Inv.resizeAny {σ : State} {T : List V} {l : Loc} {id m : Nat} {b : Block}
     (inv : Inv σ T) (hl : ValidLoc σ l) (hr : readLoc σ l = .ok (mkHandle b.isObj id)) (hb : getB σ.heap id = .ok b)
     (hgrow : b.items.length < m → b.isObj = false) :
-    Var.resizeAt true σ l id m = .error .sharedGrowth ∨
+    (b.cap < m ∧ Var.resizeAt true σ l id m = .error .sharedGrowth) ∨
     ∃ σ' id', Var.resizeAt true σ l id m = .ok (σ', id') ∧ Inv σ' T ∧ σ'.slots.length = σ.slots.length := by
   by_cases hge : b.items.length ≤ m
   · by_cases hlt : b.items.length < m
@@ -1605,16 +1653,16 @@ theorem Inv.resizeAny {σ : State} {T : List V} {l : Loc} {id m : Nat} {b : Bloc
       have hm : m = b.items.length := by omega
       subst hm
       unfold Var.resizeAt
-      rcases inv.reserveAt (m := b.items.length) hl hr hb with h1 | ⟨σ1, id1, h1, inv1, g, b1, hb1, e1, _⟩
-      · left; simp [h1, bind, Except.bind]
+      rcases inv.reserveAt (m := b.items.length) hl hr hb with ⟨hc, h1⟩ | ⟨σ1, id1, h1, inv1, g, b1, hb1, e1, _⟩
+      · left; exact ⟨hc, by simp [h1, bind, Except.bind]⟩
       · right
         simp only [h1, bind, Except.bind, hb1, e1, Nat.lt_irrefl, if_false, pure, Except.pure, gt_iff_lt]
         exact ⟨σ1, id1, rfl, inv1, g.slots⟩
   · -- shrink
     have hlt : m < b.items.length := by omega
     unfold Var.resizeAt
-    rcases inv.reserveAt (m := m) hl hr hb with h1 | ⟨σ1, id1, h1, inv1, g, b1, hb1, e1, _⟩
-    · left; simp [h1, bind, Except.bind]
+    rcases inv.reserveAt (m := m) hl hr hb with ⟨hc, h1⟩ | ⟨σ1, id1, h1, inv1, g, b1, hb1, e1, _⟩
+    · left; exact ⟨hc, by simp [h1, bind, Except.bind]⟩
     · right
       obtain ⟨b1', hb1', e1', e2'⟩ := g.blk
       rw [hb1] at hb1'; cases hb1'
@@ -1680,7 +1728,8 @@ theorem Inv.indexKey {σ : State} {T : List V} {l : Loc} {id : Nat} {k : Bytes} 
     (ho : b.isObj = true) :
     Var.indexKey true σ l id k = .error .sharedGrowth ∨
     ∃ σ' id' p, Var.indexKey true σ l id k = .ok (σ', .item id' p) ∧ Inv σ' T ∧ σ'.slots.length = σ.slots.length ∧
-      ValidLoc σ' l ∧ readLoc σ' l = .ok (.obj id') ∧ ValidLoc σ' (.item id' p) := by
+      ValidLoc σ' l ∧ readLoc σ' l = .ok (.obj id') ∧ ValidLoc σ' (.item id' p) ∧
+      (∀ v, LiveV σ.heap v → handleOf v ≠ some id → LiveV σ'.heap v) ∧ (id' = id ∨ id' = σ.heap.length) := by
   have hsort := inv.sorted id b hb ho
   obtain ⟨r, hidx, hspec⟩ := AslProofs.Map.indexOf_spec cmpB_strict b.items k hsort
   have hr' : readLoc σ l = .ok (mkHandle b.isObj id) := by rw [ho]; exact hr
@@ -1690,7 +1739,7 @@ theorem Inv.indexKey {σ : State} {T : List V} {l : Loc} {id : Nat} {k : Bytes} 
   · right
     simp only [hr0, if_true, pure, Except.pure]
     obtain ⟨hlt, _⟩ := hspec.1 hr0
-    exact ⟨σ, id, r.toNat, rfl, inv, rfl, hl, hr, b, hb, hlt⟩
+    exact ⟨σ, id, r.toNat, rfl, inv, rfl, hl, hr, ⟨b, hb, hlt⟩, fun _ hv _ => hv, Or.inl rfl⟩
   · simp only [hr0, if_false]
     obtain ⟨hp, hlo, hhi⟩ := hspec.2 (by omega)
     rcases inv.growInsertAt hl hr' hb with h1 | ⟨σ1, id1, h1, inv1, g⟩
@@ -1723,12 +1772,549 @@ theorem Inv.indexKey {σ : State} {T : List V} {l : Loc} {id : Nat} {k : Bytes} 
           rcases mem_insertAt hy with h2 | h2
           · rw [← e, h2]; simp [handleOf]
           · exact noself_of_block inv1 hb1 v (by rw [← e]; exact List.mem_map_of_mem h2))
-      refine ⟨_, id1, (-r - 1).toNat, rfl, by simpa using invr, g.slots, validLoc_setB_ne _ hpar g.valid, ?_, ?_⟩
+      refine ⟨_, id1, (-r - 1).toNat, rfl, by simpa using invr, g.slots, validLoc_setB_ne _ hpar g.valid, ?_, ?_, ?_, g.fresh⟩
       · rw [readLoc_setB_ne _ hpar]; exact hread1
       · refine ⟨_, getB_setB_same _ hlt1, ?_⟩
         simp only []
         rw [AslProofs.Map.insertAt_length _ _ (by rw [e1]; exact hp)]
         rw [e1]; omega
+      · intro v hv hne
+        exact liveV_setB (b' := { b1 with items := Map.insertAt b1.items (-r - 1).toNat (k, V.none) }) hb1 rfl (g.keeps v hv hne)
+
+
+
+
+theorem validLoc_append {σ : State} {l : Loc} (x : Heap) (hl : ValidLoc σ l) : ValidLoc { σ with heap := σ.heap ++ x } l := by
+  cases l with
+  | slot k => exact hl
+  | item P i =>
+    obtain ⟨bP, hbP, hi⟩ := hl
+    exact ⟨bP, by rw [getB_append_left _ (getB_lt hbP)]; exact hbP, hi⟩
+
+theorem readLoc_append {σ : State} {l : Loc} (x : Heap) (hl : ValidLoc σ l) :
+    readLoc { σ with heap := σ.heap ++ x } l = readLoc σ l := by
+  cases l with
+  | slot k => rfl
+  | item P i =>
+    obtain ⟨bP, hbP, hi⟩ := hl
+    simp only [readLoc]
+    rw [getB_append_left _ (getB_lt hbP)]
+
+/-- an undefined Var becomes an empty array / object -/
+theorem Inv.vivify {σ : State} {T : List V} {l : Loc} (o : Bool) (inv : Inv σ T) (hl : ValidLoc σ l)
+    (hr : readLoc σ l = .ok V.none) :
+    ∃ σ1, Var.writeLoc { σ with heap := σ.heap ++ [some (emptyBlock o)] } l (mkHandle o σ.heap.length) = .ok σ1 ∧
+      Inv σ1 T ∧ σ1.slots.length = σ.slots.length ∧ ValidLoc σ1 l ∧
+      readLoc σ1 l = .ok (mkHandle o σ.heap.length) ∧ getB σ1.heap σ.heap.length = .ok (emptyBlock o) ∧
+      (∀ v, LiveV σ.heap v → LiveV σ1.heap v) := by
+  have inv0 := Inv.alloc (σ := σ) (T := T) (b := emptyBlock o) (by simpa [bvals, emptyBlock] using inv) rfl
+    (by intro _; simp [emptyBlock, SortedItems, AslProofs.Map.Sorted])
+  have hl0 := validLoc_append [some (emptyBlock o)] hl
+  have e0 : (emptyBlock o).isObj = o := rfl
+  rw [e0] at inv0
+  obtain ⟨σ1, old, hr1, hw, inv1, dom, hr2⟩ := inv0.writeLoc hl0 (by
+    intro P hP; rw [handleOf_mkHandle]
+    intro e
+    have e' := Option.some.inj e
+    cases l with
+    | slot k => simp [parentOf] at hP
+    | item P' i =>
+      simp only [parentOf, Option.some.injEq] at hP; subst hP
+      obtain ⟨bP, hbP, _⟩ := hl
+      have := getB_lt hbP
+      omega)
+  rw [readLoc_append _ hl, hr] at hr1; cases hr1
+  have hkeep : ∀ v, LiveV σ.heap v → LiveV σ1.heap v := by
+    intro v hv
+    apply dom.liveV
+    intro j hj
+    obtain ⟨bj, hbj, hk⟩ := hv j hj
+    exact ⟨bj, by show getB (σ.heap ++ _) j = _; rw [getB_append_left _ (getB_lt hbj)]; exact hbj, hk⟩
+  refine ⟨σ1, hw, (Inv.scalar rfl).mp inv1, dom.1, dom.validLoc hl0, hr2, ?_, hkeep⟩
+  -- the new block is not the one written to
+  cases l with
+  | slot k =>
+    simp only [Var.writeLoc] at hw
+    split at hw
+    · cases hw; exact getB_alloc_new _ _
+    · cases hw
+  | item P i =>
+    obtain ⟨bP, hbP, hi⟩ := hl
+    have hPlt := getB_lt hbP
+    simp only [Var.writeLoc, getB_append_left _ hPlt, hbP, hi, if_true] at hw
+    cases hw
+    simp only [setB]
+    rw [getB_set_ne _ (by omega)]
+    exact getB_alloc_new _ _
+
+/-- one application of the non-const `operator[]` -/
+theorem Inv.stepMut {σ : State} {T : List V} {l : Loc} (s : Step) (inv : Inv σ T) (hl : ValidLoc σ l) :
+    (∃ e, Var.stepMut true σ l s = .error e ∧ (e = .sharedGrowth ∨ e = .badarg)) ∨
+    ∃ σ' t, Var.stepMut true σ l s = .ok (σ', t) ∧ Inv σ' T ∧ σ'.slots.length = σ.slots.length ∧ ValidLoc σ' t := by
+  obtain ⟨v, hr, hheld⟩ := readLoc_valid hl T
+  unfold Var.stepMut
+  simp only [bind, Except.bind, hr]
+  cases s with
+  | idx i =>
+    simp only []
+    cases v with
+    | arr id =>
+      simp only []
+      obtain ⟨b, hb, hk⟩ := inv.wf.live _ hheld id rfl
+      simp only [isObjV] at hk
+      simp only [hb]
+      by_cases hi : i ≥ b.items.length
+      · simp only [hi, if_true]
+        rcases inv.resizeGrow (m := i + 1) hl (by rw [hk]; exact hr) hb hk (by omega) with ⟨_, h1⟩ | ⟨σ', id', h1, inv', hs, _, _, b', hb', e1, _⟩
+        · left; exact ⟨_, by simp [h1], Or.inl rfl⟩
+        · right
+          refine ⟨σ', .item id' i, by simp [h1, pure, Except.pure], inv', hs, b', hb', ?_⟩
+          rw [e1]; simp; omega
+      · simp only [hi, if_false, pure, Except.pure]
+        right
+        exact ⟨σ, .item id i, rfl, inv, rfl, b, hb, by omega⟩
+    | obj id =>
+      simp only []
+      obtain ⟨b, hb, hk⟩ := inv.wf.live _ hheld id rfl
+      simp only [isObjV] at hk
+      rcases inv.indexKey (k := natDigits i) hl hr hb hk with h1 | ⟨σ', id', p, h1, inv', hs, _, _, hv, _⟩
+      · left; exact ⟨_, h1, Or.inl rfl⟩
+      · right; exact ⟨σ', _, h1, inv', hs, hv⟩
+    | none =>
+      simp only [allocB]
+      obtain ⟨σ1, hw, inv1, hs1, hl1, hr1, hb1, _⟩ := inv.vivify false hl hr
+      rw [mkHandle_false] at hw hr1
+      simp only [hw]
+      rcases inv1.resizeGrow (m := i + 1) (b := emptyBlock false) hl1 hr1 hb1 rfl (by simp [emptyBlock]) with
+        ⟨_, h1⟩ | ⟨σ', id', h1, inv', hs, _, _, b', hb', e1, _⟩
+      · left; exact ⟨_, by simp [h1], Or.inl rfl⟩
+      · right
+        refine ⟨σ', .item id' i, by simp [h1, pure, Except.pure], inv', by rw [hs, hs1], b', hb', ?_⟩
+        rw [e1]; simp [emptyBlock]
+    | null => right; exact ⟨σ, l, rfl, inv, rfl, hl⟩
+    | bool _ => right; exact ⟨σ, l, rfl, inv, rfl, hl⟩
+    | int _ => right; exact ⟨σ, l, rfl, inv, rfl, hl⟩
+    | num _ => right; exact ⟨σ, l, rfl, inv, rfl, hl⟩
+    | flt _ => right; exact ⟨σ, l, rfl, inv, rfl, hl⟩
+    | sstr _ => right; exact ⟨σ, l, rfl, inv, rfl, hl⟩
+    | str _ => right; exact ⟨σ, l, rfl, inv, rfl, hl⟩
+  | key k =>
+    simp only []
+    cases v with
+    | none =>
+      simp only [allocB]
+      obtain ⟨σ1, hw, inv1, hs1, hl1, hr1, hb1, _⟩ := inv.vivify true hl hr
+      rw [mkHandle_true] at hw hr1
+      simp only [hw]
+      rcases inv1.indexKey (k := k) hl1 hr1 hb1 rfl with h1 | ⟨σ', id', p, h1, inv', hs, _, _, hv, _⟩
+      · left; exact ⟨_, h1, Or.inl rfl⟩
+      · right; exact ⟨σ', _, h1, inv', by rw [hs, hs1], hv⟩
+    | obj id =>
+      simp only []
+      obtain ⟨b, hb, hk⟩ := inv.wf.live _ hheld id rfl
+      simp only [isObjV] at hk
+      rcases inv.indexKey (k := k) hl hr hb hk with h1 | ⟨σ', id', p, h1, inv', hs, _, _, hv, _⟩
+      · left; exact ⟨_, h1, Or.inl rfl⟩
+      · right; exact ⟨σ', _, h1, inv', hs, hv⟩
+    | arr _ => left; exact ⟨_, rfl, Or.inr rfl⟩
+    | null => left; exact ⟨_, rfl, Or.inr rfl⟩
+    | bool _ => left; exact ⟨_, rfl, Or.inr rfl⟩
+    | int _ => left; exact ⟨_, rfl, Or.inr rfl⟩
+    | num _ => left; exact ⟨_, rfl, Or.inr rfl⟩
+    | flt _ => left; exact ⟨_, rfl, Or.inr rfl⟩
+    | sstr _ => left; exact ⟨_, rfl, Or.inr rfl⟩
+    | str _ => left; exact ⟨_, rfl, Or.inr rfl⟩
+
+
+/-- a whole mutable path: the invariant holds whether or not a step is refused -/
+theorem Inv.resolveMut {T : List V} : ∀ (steps : List Step) (σ : State) (l : Loc), Inv σ T → ValidLoc σ l →
+    ∃ σ' r, Var.resolveMut true σ l steps = (σ', r) ∧ Inv σ' T ∧ σ'.slots.length = σ.slots.length ∧
+      ((∃ e, r = .error e ∧ (e = .sharedGrowth ∨ e = .badarg)) ∨ (∃ t, r = .ok t ∧ ValidLoc σ' t))
+  | [], σ, l, inv, hl => ⟨σ, .ok l, rfl, inv, rfl, Or.inr ⟨l, rfl, hl⟩⟩
+  | s :: rest, σ, l, inv, hl => by
+    simp only [Var.resolveMut]
+    rcases inv.stepMut s hl with ⟨e, h1, he⟩ | ⟨σ1, t1, h1, inv1, hs1, hl1⟩
+    · simp only [h1]
+      exact ⟨σ, .error e, rfl, inv, rfl, Or.inl ⟨e, rfl, he⟩⟩
+    · simp only [h1]
+      obtain ⟨σ', r, h2, inv', hs', hr'⟩ := Inv.resolveMut rest σ1 t1 inv1 hl1
+      exact ⟨σ', r, h2, inv', by rw [hs', hs1], hr'⟩
+
+/-! ## const paths -/
+
+theorem Held.of_mem_block {σ : State} {T : List V} {id : Nat} {b : Block} (hb : getB σ.heap id = .ok b) {v : V}
+    (hv : v ∈ bvals b) : Held σ T v := Or.inr (Or.inr (mem_hvals_of_getB hb hv))
+
+/-- the value a const path denotes is a scalar or held by the state; the walk never touches released storage -/
+theorem Inv.resolveConst {σ : State} {T : List V} (inv : Inv σ T) : ∀ (steps : List Step) (v : V), Held σ T v →
+    (∃ e, Var.resolveConst σ.heap v steps = .error e ∧ e = .nopath) ∨
+    ∃ w, Var.resolveConst σ.heap v steps = .ok w ∧ Held σ T w
+  | [], v, hv => Or.inr ⟨v, rfl, hv⟩
+  | s :: rest, v, hv => by
+    simp only [Var.resolveConst]
+    have key : (∃ e, stepConst σ.heap v s = .error e ∧ e = .nopath) ∨ ∃ w, stepConst σ.heap v s = .ok w ∧ Held σ T w := by
+      unfold stepConst
+      cases s with
+      | idx i =>
+        cases v with
+        | arr id =>
+          have hin : V.arr id ∈ σ.slots ++ T ∨ V.arr id ∈ hvals σ.heap := by
+            rcases hv with h0 | h0
+            · simp [handleOf] at h0
+            · exact h0
+          obtain ⟨b, hb, _⟩ := inv.wf.live _ hin id rfl
+          simp only [hb]
+          cases hi : b.items[i]? with
+          | none => left; exact ⟨_, rfl, rfl⟩
+          | some kv =>
+            right
+            exact ⟨kv.2, rfl, Held.of_mem_block hb (List.mem_map_of_mem (List.mem_of_getElem? hi))⟩
+        | obj _ => right; exact ⟨V.none, rfl, Or.inl rfl⟩
+        | none => right; exact ⟨V.none, rfl, Or.inl rfl⟩
+        | null => right; exact ⟨V.none, rfl, Or.inl rfl⟩
+        | bool _ => right; exact ⟨V.none, rfl, Or.inl rfl⟩
+        | int _ => right; exact ⟨V.none, rfl, Or.inl rfl⟩
+        | num _ => right; exact ⟨V.none, rfl, Or.inl rfl⟩
+        | flt _ => right; exact ⟨V.none, rfl, Or.inl rfl⟩
+        | sstr _ => right; exact ⟨V.none, rfl, Or.inl rfl⟩
+        | str _ => right; exact ⟨V.none, rfl, Or.inl rfl⟩
+      | key k =>
+        cases v with
+        | obj id =>
+          have hin : V.obj id ∈ σ.slots ++ T ∨ V.obj id ∈ hvals σ.heap := by
+            rcases hv with h0 | h0
+            · simp [handleOf] at h0
+            · exact h0
+          obtain ⟨b, hb, hk⟩ := inv.wf.live _ hin id rfl
+          simp only [isObjV] at hk
+          simp only [hb]
+          have hfind := AslProofs.Map.find_spec cmpB_strict (inv.sorted id b hb hk) k
+          right
+          rw [hfind]
+          cases hlk : AslProofs.Map.lookup k b.items with
+          | none => exact ⟨V.none, rfl, Or.inl rfl⟩
+          | some x =>
+            refine ⟨x, rfl, Held.of_mem_block hb ?_⟩
+            have := AslProofs.Map.lookup_mem hlk
+            exact List.mem_map_of_mem (f := (·.2)) this
+        | arr _ => right; exact ⟨V.none, rfl, Or.inl rfl⟩
+        | none => right; exact ⟨V.none, rfl, Or.inl rfl⟩
+        | null => right; exact ⟨V.none, rfl, Or.inl rfl⟩
+        | bool _ => right; exact ⟨V.none, rfl, Or.inl rfl⟩
+        | int _ => right; exact ⟨V.none, rfl, Or.inl rfl⟩
+        | num _ => right; exact ⟨V.none, rfl, Or.inl rfl⟩
+        | flt _ => right; exact ⟨V.none, rfl, Or.inl rfl⟩
+        | sstr _ => right; exact ⟨V.none, rfl, Or.inl rfl⟩
+        | str _ => right; exact ⟨V.none, rfl, Or.inl rfl⟩
+    rcases key with ⟨e, h1, he⟩ | ⟨w, h1, hw⟩
+    · left; exact ⟨e, by simp [h1], he⟩
+    · simp only [h1]
+      exact Inv.resolveConst inv rest w hw
+
+theorem slotV_held {σ : State} (T : List V) (k : Nat) : Held σ T (slotV σ k) := by
+  unfold slotV
+  by_cases hk : k < σ.slots.length
+  · right; left
+    simp only [List.getD_eq_getElem?_getD, List.getElem?_eq_getElem hk, Option.getD_some]
+    exact List.mem_append_left _ (List.getElem_mem hk)
+  · left
+    have : σ.slots[k]? = none := List.getElem?_eq_none (by omega)
+    simp [this, handleOf]
+
+theorem Inv.cget {σ : State} {T : List V} (inv : Inv σ T) (q : Path) :
+    (∃ e, Var.cget σ q = .error e ∧ e = .nopath) ∨ ∃ w, Var.cget σ q = .ok w ∧ Held σ T w :=
+  inv.resolveConst q.steps _ (slotV_held T q.root)
+
+
+/-! ## append, resize, remove, clear -/
+
+/-- push an owned value at the end of array block `id` -/
+theorem Inv.push {σ : State} {T : List V} {id : Nat} {b : Block} {src : V} (inv : Inv σ (src :: T))
+    (hb : getB σ.heap id = .ok b) (harr : b.isObj = false) (hne : handleOf src ≠ some id) :
+    Inv { σ with heap := setB σ.heap id { b with items := b.items ++ [([], src)] } } T := by
+  have := Inv.reitems (σ := σ) (T := T) (A := [src]) (B := []) (id := id) (b := b)
+    (items' := b.items ++ [([], src)]) (cap' := b.cap) (by simpa using inv) hb
+    (by intro j; simp only [List.map_append, List.map_cons, List.map_nil, occ_append, occ_nil, bvals]; omega)
+    (by intro v hv; right; simpa [bvals] using hv)
+    (by intro ho; rw [harr] at ho; cases ho)
+    (by
+      intro v hv
+      simp only [List.map_append, List.map_cons, List.map_nil, List.mem_append, List.mem_singleton] at hv
+      rcases hv with h1 | h1
+      · exact noself_of_block inv hb v h1
+      · rw [h1]; exact hne)
+  simpa using this
+
+/-- `operator<<(const Var&)` -/
+theorem Inv.appendAt {σ : State} {T : List V} {l : Loc} {src : V} (inv : Inv σ T) (hl : ValidLoc σ l)
+    (hsrc : LiveV σ.heap src)
+    (hcyc : ∀ id, readLoc σ l = .ok (.arr id) → handleOf src ≠ some id) :
+    Var.appendAt true σ l src = .error .sharedGrowth ∨
+    ∃ σ', Var.appendAt true σ l src = .ok σ' ∧ Inv σ' T ∧ σ'.slots.length = σ.slots.length := by
+  obtain ⟨v, hr, hheld⟩ := readLoc_valid hl T
+  unfold Var.appendAt
+  simp only [bind, Except.bind, hr]
+  cases v with
+  | arr id =>
+    simp only []
+    obtain ⟨b, hb, hk⟩ := inv.wf.live _ hheld id rfl
+    simp only [isObjV] at hk
+    have hne := hcyc id hr
+    rcases inv.growInsertAt hl (by rw [hk]; exact hr) hb with h1 | ⟨σ1, id1, h1, inv1, g⟩
+    · left; simp [h1]
+    · right
+      simp only [h1]
+      obtain ⟨b1, hb1, e1, e2⟩ := g.blk
+      have hsrc1 := g.keeps src hsrc hne
+      obtain ⟨h2, hc, inv2, same⟩ := inv1.copyLive hsrc1
+      simp only [hc]
+      obtain ⟨b2, hb2, e3, e4, _⟩ := same.get hb1
+      simp only [hb2, pure, Except.pure]
+      have hne2 : handleOf src ≠ some id1 := by
+        rcases g.fresh with e | e
+        · rw [e]; exact hne
+        · rw [e]; intro hs
+          obtain ⟨bs, hbs, _⟩ := hsrc _ hs
+          have := getB_lt hbs
+          omega
+      have := Inv.push (σ := { σ1 with heap := h2 }) (T := T) (id := id1) (b := b2) (src := src) inv2 hb2
+        (by rw [e4, e2, hk]) hne2
+      exact ⟨_, rfl, this, g.slots⟩
+  | none =>
+    simp only [allocB]
+    right
+    obtain ⟨σ1, hw, inv1, hs1, hl1, hr1, hb1, hkeep⟩ := inv.vivify false hl hr
+    rw [mkHandle_false] at hw
+    simp only [hw]
+    obtain ⟨h2, hc, inv2, same⟩ := inv1.copyLive (hkeep src hsrc)
+    simp only [hc]
+    obtain ⟨b2, hb2, e3, e4, _⟩ := same.get hb1
+    simp only [hb2, pure, Except.pure]
+    have hne2 : handleOf src ≠ some σ.heap.length := by
+      intro hs
+      obtain ⟨bs, hbs, _⟩ := hsrc _ hs
+      have := getB_lt hbs
+      omega
+    have := Inv.push (σ := { σ1 with heap := h2 }) (T := T) (id := σ.heap.length) (b := b2) (src := src) inv2 hb2
+      (by rw [e4]; rfl) hne2
+    exact ⟨_, rfl, this, hs1⟩
+  | null => right; exact ⟨σ, rfl, inv, rfl⟩
+  | bool _ => right; exact ⟨σ, rfl, inv, rfl⟩
+  | int _ => right; exact ⟨σ, rfl, inv, rfl⟩
+  | num _ => right; exact ⟨σ, rfl, inv, rfl⟩
+  | flt _ => right; exact ⟨σ, rfl, inv, rfl⟩
+  | sstr _ => right; exact ⟨σ, rfl, inv, rfl⟩
+  | str _ => right; exact ⟨σ, rfl, inv, rfl⟩
+  | obj _ => right; exact ⟨σ, rfl, inv, rfl⟩
+
+/-- `resize(n)` -/
+theorem Inv.resizeV {σ : State} {T : List V} {l : Loc} {n : Nat} (inv : Inv σ T) (hl : ValidLoc σ l) :
+    Var.resizeV true σ l n = .error .sharedGrowth ∨
+    ∃ σ', Var.resizeV true σ l n = .ok σ' ∧ Inv σ' T ∧ σ'.slots.length = σ.slots.length := by
+  obtain ⟨v, hr, hheld⟩ := readLoc_valid hl T
+  unfold Var.resizeV
+  simp only [bind, Except.bind, hr]
+  cases v with
+  | arr id =>
+    simp only []
+    obtain ⟨b, hb, hk⟩ := inv.wf.live _ hheld id rfl
+    simp only [isObjV] at hk
+    rcases inv.resizeAny (m := n) hl (by rw [hk]; exact hr) hb (fun _ => hk) with ⟨_, h1⟩ | ⟨σ', id', h1, inv', hs⟩
+    · left; simp [h1]
+    · right; exact ⟨σ', by simp [h1, pure, Except.pure], inv', hs⟩
+  | none =>
+    simp only [allocB]
+    obtain ⟨σ1, hw, inv1, hs1, hl1, hr1, hb1, _⟩ := inv.vivify false hl hr
+    rw [mkHandle_false] at hw hr1
+    simp only [hw]
+    rcases inv1.resizeAny (m := n) (b := emptyBlock false) hl1 hr1 hb1 (fun _ => rfl) with ⟨_, h1⟩ | ⟨σ', id', h1, inv', hs⟩
+    · left; simp [h1]
+    · right; exact ⟨σ', by simp [h1, pure, Except.pure], inv', by rw [hs, hs1]⟩
+  | null => right; exact ⟨σ, rfl, inv, rfl⟩
+  | bool _ => right; exact ⟨σ, rfl, inv, rfl⟩
+  | int _ => right; exact ⟨σ, rfl, inv, rfl⟩
+  | num _ => right; exact ⟨σ, rfl, inv, rfl⟩
+  | flt _ => right; exact ⟨σ, rfl, inv, rfl⟩
+  | sstr _ => right; exact ⟨σ, rfl, inv, rfl⟩
+  | str _ => right; exact ⟨σ, rfl, inv, rfl⟩
+  | obj _ => right; exact ⟨σ, rfl, inv, rfl⟩
+
+/-- `Array::remove(i, n)` -/
+theorem Inv.removeItems {σ : State} {T : List V} {id i n : Nat} {b : Block} (inv : Inv σ T) (hb : getB σ.heap id = .ok b) :
+    ∃ σ', Var.removeItems σ id i n = .ok σ' ∧ Inv σ' T ∧ σ'.slots.length = σ.slots.length := by
+  unfold Var.removeItems
+  simp only [bind, Except.bind, hb]
+  by_cases hin : i + n > b.items.length
+  · simp only [hin, if_true, pure, Except.pure]; exact ⟨σ, rfl, inv, rfl⟩
+  · simp only [hin, if_false]
+    have hsplit : b.items = b.items.take i ++ ((b.items.drop i).take n ++ b.items.drop (i + n)) := by
+      rw [← List.drop_drop, List.take_append_drop, List.take_append_drop]
+    have hsub : (b.items.take i ++ b.items.drop (i + n)).Sublist b.items := by
+      conv => rhs; rw [hsplit]
+      exact List.Sublist.append (List.Sublist.refl _) (List.sublist_append_right _ _)
+    have hbv : bvals b = (b.items.take i).map (·.2) ++ (((b.items.drop i).take n).map (·.2) ++ (b.items.drop (i + n)).map (·.2)) := by
+      unfold bvals
+      conv => lhs; rw [hsplit]
+      simp only [List.map_append]
+    have invr := Inv.reitems (σ := σ) (T := T) (A := []) (B := ((b.items.drop i).take n).map (·.2)) (id := id) (b := b)
+      (items' := b.items.take i ++ b.items.drop (i + n)) (cap' := b.cap) (by simpa using inv) hb
+      (by intro j; rw [hbv]; simp only [List.map_append, occ_append, occ_nil]; omega)
+      (by
+        intro v hv; right
+        rw [hbv]
+        simp only [List.map_append, List.mem_append, List.append_nil] at hv ⊢
+        rcases hv with (h1 | h1) | h1
+        · exact Or.inl h1
+        · exact Or.inr (Or.inr h1)
+        · exact Or.inr (Or.inl h1))
+      (by intro ho; exact List.Pairwise.sublist hsub (inv.sorted id b hb ho))
+      (by
+        intro v hv
+        apply noself_of_block inv hb v
+        rw [List.mem_map] at hv ⊢
+        obtain ⟨kv, hkv, e⟩ := hv
+        exact ⟨kv, hsub.subset hkv, e⟩)
+    obtain ⟨h', hd, inv', _⟩ := Inv.drop (wl := ((b.items.drop i).take n).map (·.2)) (T := T) invr
+    simp only [hd, pure, Except.pure]
+    exact ⟨_, rfl, inv', rfl⟩
+
+theorem Inv.removeAtV {σ : State} {T : List V} {l : Loc} {i n : Nat} (inv : Inv σ T) (hl : ValidLoc σ l) :
+    ∃ σ', Var.removeAtV σ l i n = .ok σ' ∧ Inv σ' T ∧ σ'.slots.length = σ.slots.length := by
+  obtain ⟨v, hr, hheld⟩ := readLoc_valid hl T
+  unfold Var.removeAtV
+  simp only [bind, Except.bind, hr]
+  cases v with
+  | arr id =>
+    simp only []
+    obtain ⟨b, hb, _⟩ := inv.wf.live _ hheld id rfl
+    simp only [hb]
+    split
+    · exact inv.removeItems hb
+    · exact ⟨σ, rfl, inv, rfl⟩
+  | none => exact ⟨σ, rfl, inv, rfl⟩
+  | null => exact ⟨σ, rfl, inv, rfl⟩
+  | bool _ => exact ⟨σ, rfl, inv, rfl⟩
+  | int _ => exact ⟨σ, rfl, inv, rfl⟩
+  | num _ => exact ⟨σ, rfl, inv, rfl⟩
+  | flt _ => exact ⟨σ, rfl, inv, rfl⟩
+  | sstr _ => exact ⟨σ, rfl, inv, rfl⟩
+  | str _ => exact ⟨σ, rfl, inv, rfl⟩
+  | obj _ => exact ⟨σ, rfl, inv, rfl⟩
+
+theorem Inv.removeKeyV {σ : State} {T : List V} {l : Loc} {k : Bytes} (inv : Inv σ T) (hl : ValidLoc σ l) :
+    ∃ σ', Var.removeKeyV σ l k = .ok σ' ∧ Inv σ' T ∧ σ'.slots.length = σ.slots.length := by
+  obtain ⟨v, hr, hheld⟩ := readLoc_valid hl T
+  unfold Var.removeKeyV
+  simp only [bind, Except.bind, hr]
+  cases v with
+  | obj id =>
+    simp only []
+    obtain ⟨b, hb, hk⟩ := inv.wf.live _ hheld id rfl
+    simp only [isObjV] at hk
+    obtain ⟨r, hidx, _⟩ := AslProofs.Map.indexOf_spec cmpB_strict b.items k (inv.sorted id b hb hk)
+    simp only [hb, hidx]
+    split
+    · exact inv.removeItems hb
+    · exact ⟨σ, rfl, inv, rfl⟩
+  | none => exact ⟨σ, rfl, inv, rfl⟩
+  | null => exact ⟨σ, rfl, inv, rfl⟩
+  | bool _ => exact ⟨σ, rfl, inv, rfl⟩
+  | int _ => exact ⟨σ, rfl, inv, rfl⟩
+  | num _ => exact ⟨σ, rfl, inv, rfl⟩
+  | flt _ => exact ⟨σ, rfl, inv, rfl⟩
+  | sstr _ => exact ⟨σ, rfl, inv, rfl⟩
+  | str _ => exact ⟨σ, rfl, inv, rfl⟩
+  | arr _ => exact ⟨σ, rfl, inv, rfl⟩
+
+theorem mkHandle_of_live {h : Heap} {v : V} {id : Nat} {b : Block} (hid : handleOf v = some id) (hk : b.isObj = isObjV v) :
+    v = mkHandle b.isObj id := by
+  cases v <;> simp [handleOf] at hid <;> subst hid <;> simp [isObjV] at hk <;> simp [hk, mkHandle]
+
+theorem Inv.clearV {σ : State} {T : List V} {l : Loc} (inv : Inv σ T) (hl : ValidLoc σ l) :
+    ∃ σ', Var.clearV σ l = .ok σ' ∧ Inv σ' T ∧ σ'.slots.length = σ.slots.length := by
+  obtain ⟨v, hr, hheld⟩ := readLoc_valid hl T
+  unfold Var.clearV
+  simp only [bind, Except.bind, hr]
+  cases hh : handleOf v with
+  | none => exact ⟨σ, rfl, inv, rfl⟩
+  | some id =>
+    simp only []
+    obtain ⟨b, hb, hk⟩ := inv.wf.live _ hheld id hh
+    have hv : v = mkHandle b.isObj id := mkHandle_of_live (h := σ.heap) hh hk
+    rcases inv.resizeAny (m := 0) hl (by rw [← hv]; exact hr) hb (fun h0 => absurd h0 (by omega)) with ⟨hc, _⟩ | ⟨σ', id', h1, inv', hs⟩
+    · omega
+    · exact ⟨σ', by simp [h1, pure, Except.pure], inv', hs⟩
+
+
+/-! ## root variables, `Var(Type)` -/
+
+theorem Inv.replaceSlot {σ : State} {T : List V} {k : Nat} {v : V} (inv : Inv σ (v :: T)) (hk : k < σ.slots.length) :
+    ∃ σ', Var.replaceSlot σ k v = .ok σ' ∧ Inv σ' T ∧ σ'.slots.length = σ.slots.length := by
+  obtain ⟨σ1, old, hr, hw, inv1, dom, _⟩ := inv.writeLoc (l := .slot k) hk (fun _ h => by simp [parentOf] at h)
+  simp only [Var.writeLoc, hk, if_true, Except.ok.injEq] at hw
+  subst hw
+  have hold : slotV σ k = old := by
+    simp only [readLoc, List.getElem?_eq_getElem hk, Except.ok.injEq] at hr
+    simp [slotV, List.getD_eq_getElem?_getD, List.getElem?_eq_getElem hk, hr]
+  obtain ⟨h', hd, inv2, _⟩ := Inv.drop (wl := [old]) (T := T) (by simpa using inv1)
+  refine ⟨_, ?_, inv2, by simp⟩
+  unfold Var.replaceSlot
+  simp only [hk, if_true, hold]
+  simp only [] at hd
+  rw [hd]
+
+theorem Inv.mkType {σ : State} {T : List V} (ty : Nat) (inv : Inv σ T) :
+    Var.mkType σ.heap ty = .error .badarg ∨
+    ∃ h' v, Var.mkType σ.heap ty = .ok (h', v) ∧ Inv { σ with heap := h' } (v :: T) ∧
+      (∃ x, h' = σ.heap ++ x) ∧ (∀ id, handleOf v = some id → σ.heap.length ≤ id) := by
+  unfold Var.mkType
+  by_cases h0 : ty = tNONE
+  · right; simp only [h0, if_true]
+    exact ⟨σ.heap, V.none, rfl, (Inv.scalar rfl).mpr inv, ⟨[], by simp⟩, by intro id h; cases h⟩
+  by_cases h1 : ty = tNUL
+  · right; simp only [h0, h1, if_true, if_false]
+    exact ⟨σ.heap, V.null, rfl, (Inv.scalar rfl).mpr inv, ⟨[], by simp⟩, by intro id h; cases h⟩
+  by_cases h2 : ty = tSSTRING
+  · right; simp only [h0, h1, h2, if_true, if_false]
+    exact ⟨σ.heap, V.sstr [], rfl, (Inv.scalar rfl).mpr inv, ⟨[], by simp⟩, by intro id h; cases h⟩
+  by_cases h3 : ty = tSTRING
+  · right; simp only [h0, h1, h2, h3, if_true, if_false]
+    exact ⟨σ.heap, V.str [], rfl, (Inv.scalar rfl).mpr inv, ⟨[], by simp⟩, by intro id h; cases h⟩
+  by_cases h4 : ty = tARRAY
+  · right; simp only [h0, h1, h2, h3, h4, if_true, if_false, allocB]
+    have := Inv.alloc (σ := σ) (T := T) (b := emptyBlock false) (by simpa [bvals, emptyBlock] using inv) rfl
+      (by intro h; cases h)
+    exact ⟨_, _, rfl, this, ⟨_, rfl⟩, by intro id h; simp [handleOf] at h; omega⟩
+  by_cases h5 : ty = tOBJ
+  · right; simp only [h0, h1, h2, h3, h4, h5, if_true, if_false, allocB]
+    have := Inv.alloc (σ := σ) (T := T) (b := emptyBlock true) (by simpa [bvals, emptyBlock] using inv) rfl
+      (by intro _; simp [emptyBlock, SortedItems, AslProofs.Map.Sorted])
+    exact ⟨_, _, rfl, this, ⟨_, rfl⟩, by intro id h; simp [handleOf] at h; omega⟩
+  left; simp only [h0, h1, h2, h3, h4, h5, if_false]
+
+theorem Inv.assignType {σ : State} {T : List V} {t : Loc} {ty : Nat} (inv : Inv σ T) (hl : ValidLoc σ t) :
+    Var.assignType σ t ty = .error .badarg ∨
+    ∃ σ', Var.assignType σ t ty = .ok σ' ∧ Inv σ' T ∧ σ'.slots.length = σ.slots.length := by
+  unfold Var.assignType
+  rcases inv.mkType ty with h1 | ⟨h', v, h1, inv1, ⟨x, hx⟩, hfresh⟩
+  · left; simp [h1, bind, Except.bind]
+  · right
+    simp only [h1, bind, Except.bind]
+    have hl1 : ValidLoc { σ with heap := h' } t := by rw [hx]; exact validLoc_append x hl
+    obtain ⟨σ2, ha, inv2, hs2⟩ := Inv.assignV (T := v :: T) (src := v) inv1 hl1 (Or.inr (Or.inl (by simp))) (by
+      intro P hP hv
+      have := hfresh P hv
+      cases t with
+      | slot k => simp [parentOf] at hP
+      | item P' i =>
+        simp only [parentOf, Option.some.injEq] at hP; subst hP
+        obtain ⟨bP, hbP, _⟩ := hl
+        have := getB_lt hbP
+        omega)
+    simp only [ha]
+    obtain ⟨h3, hd, inv3, _⟩ := Inv.drop (σ := σ2) (wl := [v]) (T := T) (by simpa using inv2)
+    simp only [hd, pure, Except.pure]
+    exact ⟨_, rfl, inv3, hs2⟩
 
 
 end AslModel.Var
